@@ -115,6 +115,19 @@ func H_C15_compose() {
 				vAssert(vSameState(before[i], vSnap(g, "b", n)), "compose:sources-untouched-after-two-composes")
 			}
 		}
+		// the composed object is itself a valid source (also when it is empty)
+		if dst == "dst" {
+			w3 := vNewRecorder()
+			r3 := &http.Request{Body: &vBody{decode: func(v interface{}) error {
+				req := v.(*storage.ComposeRequest)
+				req.Destination = &storage.Object{}
+				req.SourceObjects = []*storage.ComposeRequestSourceObjects{{Name: "dst"}, {Name: "s0"}}
+				return nil
+			}}}
+			g.handleGcsCompose(vCtx(), dontNeedUrls, w3, r3, "b", "dst3/compose", emptyConds)
+			vAssert(w3.code == http.StatusOK, "compose:a-composed-object-is-a-valid-source")
+			vAssert(string(vSnap(g, "b", "dst3").content) == want+"a", "compose:of-a-composed-source")
+		}
 		vReach("c15-compose-ok")
 	}
 }
